@@ -34,7 +34,7 @@ RULE = ("static part (exhaustive, enumerated): case = (built-in type object, ord
         "generated subset of the 30 classes in generated order with generated NULL members, placed among made-up "
         "filler classes) + generated sequence of lookups/calls/casts with repeats, optionally interleaved with 1..2 in-place "
         "re-declarations of the same type object (classes dropped / replaced by new instance objects / reordered / added) "
-        "followed by lookups biased to the classes that changed, or (without re-declaration) the same with 2..16 threads. "
+        "followed by lookups biased to the classes that changed, or (without re-declaration) the same with 2..16 threads; lookups through a built-in type OBJECT as receiver (instance / implements / method lookups / type_of on Int, File, ... themselves, usually the first access to that object in the process). "
         "non-trivial = static case whose 18 cached classes are looked up for the first time in the process "
         "(cold, others-first), or run-time type with >= 20 instances, or a thread case (concurrent cold lookup). "
         "distinct = distinct case JSON.")
@@ -191,6 +191,9 @@ def _op(draw, t, threads):
         return ["cast", "s:" + s, draw(st.sampled_from([s, s, "self", "twin", draw(st.sampled_from(TYPES_NT))]))]
     if k <= 18:
         c, n = _class_target(draw, t, allow_static_as_class=False)
+        if not threads and draw(st.integers(0, 2)) == 0:
+            # the built-in type OBJECT itself as the receiver (its type is Type), typically the first access to it
+            return ["oq", draw(st.sampled_from("IPMRO")), draw(st.sampled_from(TYPES_NT)), c, draw(st.integers(0, n - 1))]
         return ["sq", draw(st.sampled_from("ITPQMNRS")), draw(st.sampled_from(TYPES_NT)), c, draw(st.integers(0, n - 1))]
     if threads or draw(st.booleans()):
         return ["tname"]
@@ -321,12 +324,17 @@ def _expect(state, decl, op):
         if "Size" in decl and decl["Size"][1] & 1:
             return "size=4242 traps=1"
         return "size=%d traps=0" % case["size"]
-    if kind == "sq":
+    if kind in ("sq", "oq"):
         e = op[1]
 
         def rel(tok):
             parts = tok.split(",")
-            if len(parts) != 3 or not parts[1].startswith("d=") or not parts[2].startswith("m="):
+            if kind == "oq":
+                if len(parts) != 4 or not parts[3].startswith("v="):
+                    return "<malformed>"
+                if e == "O":
+                    return "s," + ",".join(parts[1:])
+            if len(parts) != (3 if kind == "sq" else 4) or not parts[1].startswith("d=") or not parts[2].startswith("m="):
                 return "<malformed>"
             d, m = parts[1] == "d=1", parts[2] == "m=1"
             if e in "IT":
@@ -337,7 +345,7 @@ def _expect(state, decl, op):
                 r = "s" if d and m else "C"
             else:
                 r = "1" if d and m else "0"
-            return "%s,%s,%s" % (r, parts[1], parts[2])
+            return ",".join([r] + parts[1:])
         return rel
     raise HarnessBug("op " + repr(op))
 
@@ -349,6 +357,8 @@ def _describe(case, op):
         return "%s(<run-time type %s, %d instances>, %s, member %d)" % (ENTRY_NAME[op[1]], case["name"], len(case["inst"]), op[2], op[3])
     if op[0] == "sq":
         return "%s(%s, %s, member %d)" % (ENTRY_NAME[op[1]], op[2], op[3], op[4])
+    if op[0] == "oq":
+        return "%s(<the type object %s itself>, %s, member %d)" % ("type_of" if op[1] == "O" else ENTRY_NAME[op[1]], op[2], op[3], op[4])
     if op[0] == "api":
         return "public call dispatching to %s member %d on an object of run-time type %s" % (op[1], op[2], case["name"])
     if op[0] == "cast":
@@ -440,6 +450,10 @@ def _run_rt(ctx, case):
             want = _expect(state, decl, op)
             if callable(want):
                 want = want(got)
+            if op[0] == "oq" and got.endswith(",v=1"):
+                if "first-touch-of-a-type-object" not in ev:
+                    ev.append("first-touch-of-a-type-object")
+                nt = True
             if got != want:
                 hist = (" (declaration %d of the same type object; old = instance of an earlier declaration, STALE = "
                         "call reached a function of an earlier declaration)" % (state["redeclared"] + 1)) if state.get("redeclared") else ""
